@@ -61,7 +61,13 @@ gemini_like = st.builds(lambda pre, rest, t: pre + rest + t,
                         st.sampled_from(["h/", "h/x y 3", "h/x\t+", "", "[", "h/ HTTP/1.0"]), st.sampled_from(TERMS))
 raw_line = st.binary(max_size=24).map(lambda b: b.decode("latin-1"))
 
-line_st = st.one_of(http_like, http_like, gplus_like, gplus_like, spartan_like, gemini_like, raw_line,
+# very long first lines whose shape is decided by their tail (the token <<PAD>> stands for `pad` bytes of 'a')
+long_like = st.builds(lambda shape, t: shape + t,
+                      st.sampled_from(["GET /<<PAD>> HTTP/1.0", "HEAD /<<PAD>> HTTP/1.1", "GET /wap/<<PAD>> HTTP/1.0", "/<<PAD>>\t+",
+                                       "/<<PAD>>\t$", "/<<PAD>>\tq\t!", "h /<<PAD>> 0", "h /<<PAD>> 12", "gemini://h/<<PAD>>",
+                                       "/<<PAD>>", "<<PAD>>\t", "/x\t<<PAD>>"]),
+                      st.sampled_from(["\r\n", "\n"]))
+line_st = st.one_of(http_like, http_like, gplus_like, gplus_like, spartan_like, gemini_like, raw_line, long_like,
                     st.sampled_from(["\r\n", "\n", "", "\t\r\n", "/\r\n"]))
 
 headers_st = st.lists(st.sampled_from(HEADER_LINES), max_size=4).map(
@@ -83,6 +89,7 @@ def _case(draw):
     if i >= 0 and i + 1 < len(line):
         line, rest = line[: i + 1], line[i + 1:]
     return {"line": line, "rest": rest + draw(headers_st), "tls": draw(st.booleans()),
+            "pad": draw(st.sampled_from([1000, 4096, 8192, 65520, 65530, 65536, 65537, 70000, 131072, 300000])) if "<<PAD>>" in line else 0,
             "order": (lambda o: o if o == "shipped" else list(o))(draw(order_st))}
 
 
@@ -189,14 +196,21 @@ def check_case(case, ctx):
     if case.get("mode") == "firstbyte":
         return _first_byte_sweep(ctx)
     line, rest, tls, order = world.b(case["line"]), world.b(case["rest"]), case["tls"], case["order"]
+    line = line.replace(b"<<PAD>>", b"a" * case.get("pad", 0))
+    if not line.endswith(b"\n"):
+        rest = b""  # a first line without its LF is the end of what the client sent
+
     shipped = order == "shipped"
     cfg, order = _config(order)
     want, sh = M.expected_winners(line, rest, tls, order)
     got = []
     for _ in range(2):
         try:
-            p = drive.get_protocol(cfg, line, rest, tls)
+            # through the connection handler, which reads the first line itself
+            p, seen_line = drive.detect(cfg, line + rest, tls)
             got.append(type(p).__name__ if p is not None else None)
+            if seen_line is not None and seen_line.encode(errors="surrogateescape") != line:
+                got[-1] = "%s(after the first line was read as %d of its %d bytes)" % (got[-1], len(seen_line), len(line))
         except Exception as e:
             got.append("raise:" + drive.exc_signature(e))
     # classification for evidence
@@ -227,13 +241,19 @@ def check_case(case, ctx):
     if isinstance(g, str) and g.startswith("raise:"):
         fails.append(Fail("getProtocol-" + g, "protocol detection raised on line %r tls=%r" % (line, tls)))
         return fails
+    note = ""
+    if isinstance(g, str) and "(after the first line was read as" in g:
+        # a server may bound the first line; what the statement forbids is a different winner
+        g, note = g.split("(", 1)[0], " (" + g.split("(", 1)[1]
+        if g == "None":
+            g = None
     if g is not None and M.CLASSES[g][1] != bool(tls):
         fails.append(Fail("tls-mismatch:" + g, "%s (secure=%r) claimed a %s connection, line %r" % (
             g, M.CLASSES[g][1], "TLS" if tls else "plaintext", line)))
     if g not in want:
         fails.append(Fail("wrong-winner:got=%s:want=%s" % (g, "|".join(sorted(map(str, want)))),
-                          "line %r tls=%r order=%s: claimed by %s, documented shapes give %s (shapes %r)" % (
-                              line, tls, "shipped" if shipped else order, g, sorted(map(str, want)), sh)))
+                          "line %r tls=%r order=%s: claimed by %s%s, documented shapes give %s (shapes %r)" % (
+                              line[:200], tls, "shipped" if shipped else order, g, note, sorted(map(str, want)), sh)))
     if shipped and g is None:
         fails.append(Fail("unclaimed", "shipped list: nobody claims line %r tls=%r" % (line, tls)))
     return fails
